@@ -26,6 +26,8 @@ const FORGERIES_MUT: &[&str] = &[
     "immutable-shaped",
     "other-key-same-value",
     "no-salt-signature",
+    "prefix-salt-valid-sig",
+    "extended-salt-valid-sig",
 ];
 const FORGERIES_SIGNED: &[&str] = &["mixed-valid-invalid", "other-infohash", "short-entry", "empty-entry", "sig-bitflip", "key-swap", "double-length-entry"];
 
@@ -77,7 +79,8 @@ fn run(ctx: &RunCtx) -> Report {
         0 => None,
         1 => Some(b"salt".to_vec()),
         _ => {
-            let n = rng.usize(1, 64);
+            // 1 in 4 of these: longer than the 64 bytes a storing node accepts (lookups do not care)
+            let n = if rng.chance(1, 4) { rng.usize(65, 120) } else { rng.usize(1, 64) };
             Some(rng.bytes(n))
         }
     };
@@ -97,7 +100,10 @@ fn run(ctx: &RunCtx) -> Report {
         .iter()
         .enumerate()
         .map(|(i, k)| {
-            let t = wall_now + i as u64;
+            // authentic announcements of any age: lookups do not judge timestamps, they must hand
+            // out exactly what was signed (also from clocks far ahead or behind)
+            let off: i64 = *rng.pick(&[0i64, 1, 44, 46, 3_600, 86_400 * 365, -3_600, -86_400 * 365]);
+            let t = (wall_now as i64 + off * 1_000_000) as u64 + i as u64;
             (k.verifying_key().to_bytes(), t, krpc::sign(k, &krpc::signed_announce_signable(&info_hash, t)))
         })
         .collect();
@@ -191,6 +197,22 @@ fn run(ctx: &RunCtx) -> Report {
                     "no-salt-signature" => {
                         // valid for the unsalted slot of the same key
                         let it = Item::signed(&key, if salt.is_some() { None } else { Some(b"x") }, honest_item.seq + 60, b"forged: replayed from another salt slot");
+                        push_item(&mut r, &it);
+                    }
+                    "prefix-salt-valid-sig" | "extended-salt-valid-sig" => {
+                        // valid for a salt that is a prefix (first 64 bytes, or all but the last byte) or an
+                        // extension of the requested one
+                        let other: Vec<u8> = match (&salt, f.2) {
+                            (Some(s), "prefix-salt-valid-sig") if s.len() > 64 => s[..64].to_vec(),
+                            (Some(s), "prefix-salt-valid-sig") if s.len() > 1 => s[..s.len() - 1].to_vec(),
+                            (Some(s), _) => {
+                                let mut x = s.clone();
+                                x.push(0);
+                                x
+                            }
+                            (None, _) => vec![0],
+                        };
+                        let it = Item::signed(&key, Some(&other), honest_item.seq + 70, b"forged: replayed from a prefix/extension salt");
                         push_item(&mut r, &it);
                     }
                     "value-altered" => {
